@@ -2,8 +2,8 @@ package verifsim
 
 import (
 	"errors"
-	"io"
 	"fmt"
+	"io"
 	"os"
 	"sort"
 )
